@@ -78,9 +78,9 @@ Theorem C02_tree_depth_bounded_without_emphasis : forall fuel m src d cc ic,
 Proof. exact parse_tree_depth. Qed.
 
 (* the hypothesis about the inline chain discharged: every parser assembled from the shipped plugins without the
-   emphasis (m), strikethrough (s) and composite CommonMark (C) letters -- any other letters, any order *)
+   emphasis (m), strikethrough (s), composite CommonMark (C) and harness one-tilde pair (z) letters -- any other letters, any order *)
 Theorem C02_shipped_without_emphasis : forall cfg nest fuel src d cc,
-  forallb (fun c => negb ((c =? 109) || (c =? 115) || (c =? 67))) cfg = true ->
+  forallb (fun c => negb ((c =? 109) || (c =? 115) || (c =? 67) || (c =? 122))) cfg = true ->
   let m := build_md cfg nest in
   snd (r_iter (md_core m)) = inr cc -> snd (parse fuel m src) = inr d ->
   (depth_of (d_root d) <= fold_left (fun dd rule => step_bound (md_maxnest m) (md_maxnest m) rule dd) cc 0%nat)%nat.
